@@ -192,9 +192,14 @@ MappingVecs ==
   \* unicode and delimiter bytes
   \o SeqMap(LAMBDA fn : BM(fn, << << << 195, 169 >>, << 226, 130, 172 >> >>, << << 61 >>, << 59 >> >>, << << 59 >>, << 61 >> >>, << << 0 >>, << 255 >> >> >>, 20, "bytes"), MapFns)
 
-Vecs == CASE Fam = "cert" -> CertVecs [] Fam = "keycert" -> KeyCertVecs [] Fam = "ident" -> IdentVecs \o IdentVecs2 [] Fam = "raddr" -> RAddrVecs \o RAddrHostVecs
+\* "again": the driver makes the call, overwrites everything a caller can reach from the result, and makes the same call once
+\* more; the event carries the second result (results are fresh: what a caller does to one result never shows in a later one)
+AgainOps(ops) == SeqMap(LAMBDA o : IF o.op = "Build" THEN o @@ [again |-> TRUE] ELSE o, ops)
+Again(vs) == vs \o SeqMap(LAMBDA v : [ops |-> AgainOps(v.ops)], SelectSeq(vs, LAMBDA v : \E i \in 1..Len(v.ops) : v.ops[i].op = "Build"))
+Vecs0 == CASE Fam = "cert" -> CertVecs [] Fam = "keycert" -> KeyCertVecs [] Fam = "ident" -> IdentVecs \o IdentVecs2 [] Fam = "raddr" -> RAddrVecs \o RAddrHostVecs
           [] Fam = "lease" -> LeaseVecs [] Fam = "offsig" -> OffVecs [] Fam = "ls2" -> LS2Vecs [] Fam = "mapping" -> MappingVecs
           [] OTHER -> CertVecs \o KeyCertVecs \o IdentVecs \o IdentVecs2 \o RAddrVecs \o LeaseVecs \o OffVecs \o LS2Vecs \o MappingVecs
+Vecs == Again(Vecs0)
 
 VARIABLE done
 Init == done = FALSE
